@@ -8,6 +8,7 @@ import (
 	"net"
 	"net/http"
 	"sort"
+	"strconv"
 	"strings"
 	"testing"
 	"testing/synctest"
@@ -205,6 +206,11 @@ func runDial(tt *testing.T, tape *simrt.Tape, keep bool) (out simrt.Outcome) {
 					a = n - 1
 				}
 				s = append(append(s, v4[:a]...), v6[:n-a]...)
+				if n-a >= 2 && tape.Prob(1, 2) {
+					// addresses of one family need not be neighbours in the resolver's answer: a global IPv6 address sorts
+					// before the IPv4 ones, a unique-local one behind them (RFC 6724 precedence)
+					s[a] = []string{"2001:db8::" + strconv.Itoa(1+tape.Choose(9)), "::1"}[tape.Choose(2)]
+				}
 			}
 			return s
 		}
